@@ -51,7 +51,9 @@ def fsOf (j : Json) : FS :=
   let l : List (Str × Node) := match j.getObjVal? "files" with
     | .ok (.obj o) => o.toList.map fun (k, v) => (k.toList, nodeOfJson v)
     | _ => []
-  fun p => lookup p l
+  { node := fun p => lookup p l,
+    -- the registry of the harness's child processes: only the private format `c16kv`
+    formats := fun n => if n = "c16kv".toList then some kvParser else none }
 
 def envFileOfJson (j : Json) : EnvFile :=
   { path := (getStr j "path").toList, required := getBool j "required", format := (getStr j "format").toList }
@@ -148,7 +150,7 @@ def specOp : Handler := fun args =>
   let nodes : List (Str × Node) :=
     (efl.zipIdx.filterMap fun (f, i) => if f.present then some (idx 'e' i, Node.file f.lines) else none) ++
     (lfl.zipIdx.filterMap fun (f, i) => if f.present then some (idx 'l' i, Node.file f.lines) else none)
-  let sfs : FS := fun p => lookup p nodes
+  let sfs : FS := { node := fun p => lookup p nodes }
   let efs : List EnvFile := efl.zipIdx.map fun (f, i) => { path := idx 'e' i, required := f.required, format := [] }
   let lps : List Str := lfl.zipIdx.map fun (_, i) => idx 'l' i
   if !wf then Json.mkObj [("wf", Json.bool false)]
